@@ -49,6 +49,8 @@ class BitEv:
             base = H.strip_refs(n[1])
             if H.tag(base) == "local":
                 if base[1] in self.self_names:
+                    if inner_val is None:
+                        inner_val = getattr(self, "cur", None)
                     return inner_val if inner_val is not None else ("f", ones(self.w), 0)
                 if base[1] in self.extra:
                     return self.extra[base[1]]
@@ -206,16 +208,79 @@ def some_of(n):
     return None
 
 
+def _if_nodes(body):
+    return [x for x in H.walk(body) if H.tag(x) == "if"]
+
+
 def eval_mutator(bev, fn, opt_fields):
-    """Body `self.inner OP= e; [self.f = Some(p)|None;] *self|self` -> (inner fn, {field: 'some:<param>'|'none'})"""
-    body = fn["hir"]
-    cur = ("f", ones(bev.w), 0)
-    fields = {}
-    stmts = H.stmts_of(body)
+    """Body `self.inner OP= e; [self.f = Some(p)|None;] *self|self` -> (inner fn, {field: 'some:<param>'|'none'}).
+    A body with conditionals (`if !self.is_x() { self.inner |= X }`) is decided exactly: the bits its conditions test (I) are enumerated,
+    the others stay symbolic, so every condition has a definite truth value in every case; the result is ('cases', I, [(a, f, fields)])."""
+    ifs = _if_nodes(fn["hir"])
+    if not ifs:
+        return _eval_mutator_path(bev, fn, opt_fields, ("f", ones(bev.w), 0))
+    I = 0
+    for x in ifs:
+        for k, A, X in pred(bev, x[1]):
+            I |= A
+    bits = [i for i in range(bev.w) if I >> i & 1]
+    if len(bits) > 12:
+        raise Unk(f"conditions test {len(bits)} bits")
+    cases = []
+    for m in range(1 << len(bits)):
+        a = 0
+        for j, b in enumerate(bits):
+            if m >> j & 1:
+                a |= 1 << b
+        cur, flds = _eval_mutator_path(bev, fn, opt_fields, ("f", ones(bev.w) & ~I, a))
+        cases.append((a, cur, flds))
+    flds0 = cases[0][2]
+    merged = {k: (v if all(c[2].get(k) == v for c in cases) else "varies") for k, v in flds0.items()}
+    for c in cases:
+        for k in c[2]:
+            merged.setdefault(k, "varies")
+    return ("cases", I, cases), merged
+
+
+def mutator_differs(cur, expA, expX, w):
+    """None when the mutator's effect on inner is (inner & expA) ^ expX for every value, else a description with a witness."""
+    if cur[0] == "f":
+        if (cur[1], cur[2]) == (expA, expX):
+            return None
+        return f"inner becomes (inner & {cur[1]:#x}) ^ {cur[2]:#x}"
+    if cur[0] == "cases":
+        I = cur[1]
+        for a, r, _ in cur[2]:
+            ea, ex = expA & ~I & ones(w), ((a & expA) ^ expX) & ones(w)
+            if r[0] != "f" or (r[1], r[2]) != (ea, ex):
+                got = f"(inner & {r[1]:#x}) ^ {r[2]:#x}" if r[0] == "f" else repr(r)
+                return (f"for a value whose tested bits {I:#x} are {a:#x} inner becomes {got}, expected (inner & {ea:#x}) ^ {ex:#x} "
+                        f"(e.g. inner = {a:#x} gives {(r[2] if r[0] == 'f' else 0):#x} instead of {ex:#x})")
+        return None
+    return f"inner becomes {cur}"
+
+
+def _eval_block(bev, blk, cur, fields, opt_fields, top):
     ret = None
+    blk = H.strip(blk)
+    stmts = H.stmts_of(blk)
     for st in stmts:
         k = st[0]
         e = H.strip(st[1])
+        if H.tag(e) == "if" and k in ("semi", "expr", "tail"):
+            bev.cur = cur
+            d = pred(bev, e[1])
+            truth = False
+            for kk, A, X in d:
+                if A != 0:
+                    raise Unk(f"condition {H.short(e[1])} is not decided by the enumerated bits")
+                truth = truth or ((X != 0) == (kk == "nz"))
+            br = e[2] if truth else e[3]
+            if br is not None:
+                cur, r2 = _eval_block(bev, br, cur, fields, opt_fields, False)
+                if r2 is not None:
+                    raise Unk("return value inside a conditional")
+            continue
         if k in ("semi", "expr"):
             if H.tag(e) == "asgop" and e[2].replace("Assign", "") in ("BitAnd", "BitOr", "BitXor"):
                 fc = H.field_chain(e[4])
@@ -242,11 +307,20 @@ def eval_mutator(bev, fn, opt_fields):
                 raise Unk(f"statement {H.short(e)}")
         elif k == "tail":
             r = H.strip_refs(e)
-            if H.local_name(r) != "self":
+            if H.local_name(r) != "self" or not top:
                 raise Unk(f"returns {H.short(e)}")
             ret = "self"
         else:
             raise Unk(f"statement kind {k}")
+    return cur, ret
+
+
+def _eval_mutator_path(bev, fn, opt_fields, cur):
+    fields = {}
+    try:
+        cur, ret = _eval_block(bev, fn["hir"], cur, fields, opt_fields, True)
+    finally:
+        bev.cur = None
     if ret is None and fn["output"] != "()":
         raise Unk("no return value")
     return cur, fields
@@ -426,9 +500,9 @@ def check_flag_type(ctx, g, crate, lpath, wflag, zero_valid, rule_prefix, key0, 
                         if cur != ("or-grp", group):
                             viol(mname, f"does not OR in the group member's bits: {cur}", fn)
                     else:
-                        exp = ("f", ones(w) & ~C & ones(w), C)
-                        if cur != exp:
-                            viol(mname, f"inner becomes (inner & {cur[1]:#x}) ^ {cur[2]:#x}; specification: inner | {C:#x}", fn)
+                        why = mutator_differs(cur, ones(w) & ~C & ones(w), C, w)
+                        if why:
+                            viol(mname, f"{why}; specification: inner | {C:#x}", fn)
                     if member and flds.get(member, "").split(":")[0] != "some":
                         viol(mname, f"member {member} not set", fn)
                 else:
@@ -441,8 +515,10 @@ def check_flag_type(ctx, g, crate, lpath, wflag, zero_valid, rule_prefix, key0, 
                         ok_masks = {C, gm & ones(w)}
                     else:
                         ok_masks = {C}
-                    if not (cur[0] == "f" and cur[2] == 0 and any(cur[1] == (ones(w) & ~m) for m in ok_masks)):
-                        viol(mname, f"inner becomes (inner & {cur[1]:#x}) ^ {cur[2]:#x}; specification: inner & !{C:#x} "
+                    whys = [mutator_differs(cur, ones(w) & ~m, 0, w) for m in sorted(ok_masks)]
+                        # (every accepted reading has to fail for a report)
+                    if all(whys):
+                        viol(mname, f"{whys[0]}; specification: inner & !{C:#x} "
                                     f"(removes exactly bits {C:#x}, keeps all others)", fn)
                     if member and flds.get(member) != "none":
                         viol(mname, f"member {member} not reset to None", fn)
